@@ -129,6 +129,11 @@ def _check_iso9660_filename(fullname, interchange_level):
     if version != b'' and (not version.isdigit() or int(version) < 1 or int(version) > 32767):
         raise pycdlibexception.PyCdlibInvalidInput('ISO9660 filenames must have a version between 1 and 32767')
 
+    if version == b'' and fullname.endswith(b';'):
+        # A name without any version is tolerated (see above), but a
+        # semicolon that is not followed by a version is not a valid name.
+        raise pycdlibexception.PyCdlibInvalidInput('ISO9660 filenames must have a version between 1 and 32767')
+
     # Ecma-119 section 7.5.1 specifies that filenames must have at least one
     # character in either the name or the extension.
     if not name and not extension:
